@@ -686,6 +686,15 @@ class QvmCpu:
         char = bytes([char_code]).decode('cp437')
         self.push(CellType.STRING, char)
 
+    def _float_to_int(self, func, value, dst_type):
+        try:
+            return func(value)
+        except (OverflowError, ValueError):
+            # infinity or NaN has no integer value
+            self.trap(TrapCode.INVALID_CELL_VALUE,
+                      type=dst_type,
+                      value=value)
+
     def _exec_cint(self):
         value = self.pop()
 
@@ -694,7 +703,8 @@ class QvmCpu:
                       expected='numeric',
                       got=value.type)
 
-        result = int(round(value.value))
+        result = self._float_to_int(
+            lambda n: int(round(n)), value.value, CellType.INTEGER)
         self.push(CellType.INTEGER, result)
 
     def _exec_clng(self):
@@ -705,7 +715,8 @@ class QvmCpu:
                       expected='numeric',
                       got=value.type)
 
-        result = int(round(value.value))
+        result = self._float_to_int(
+            lambda n: int(round(n)), value.value, CellType.LONG)
         self.push(CellType.LONG, result)
 
     def _exec_cmp(self):
@@ -989,7 +1000,8 @@ class QvmCpu:
                       expected='numeric',
                       got=value.type)
 
-        int_value = math.floor(value.value)
+        int_value = self._float_to_int(
+            math.floor, value.value, CellType.LONG)
         self.push(CellType.LONG, int_value)
 
     def _exec_io(self, device_id, operation):
@@ -1504,7 +1516,7 @@ for src, dst in itertools.product(numeric_types, numeric_types):
             conv_func = lambda n: int(round(n))
         def method(self):
             value = self.pop(src)
-            new_value = conv_func(value)
+            new_value = self._float_to_int(conv_func, value, dst)
             self.push(dst, new_value)
             logger.info(f'Converted {src.name} {value} to '
                         f'{dst.name} {new_value}')
